@@ -12,6 +12,7 @@
 //	rep   Bridge.reportTrafficStats under a forced interleaving (gated CloudControl)
 //	brg   Bridge.Close, cleanup report racing the periodic goroutine's final report
 //	sp    StreamProcessor.Close against an in-flight ReadPacket/WritePacket (gated transport)
+//	cst   client mapping handler: reportStats ticks / calls / failing calls racing the final report on Close (TrackTraffic gated)
 //	bat   Bridge.Close and connections attached between Close calls (late SetTarget/SetSourceConnection)
 //	bg    Close while the storage cleaner / session sweep is mid-tick (storage lock held by a parked reader)
 //	tst   Tunnel.Start parked at its interface calls (manager.Ctx(), log) while Close calls run to completion
@@ -63,6 +64,8 @@ func exec(caseStr string) (obs string) {
 			return runBg(t)
 		case "bat":
 			return runBat(t)
+		case "cst":
+			return runCst(t)
 		}
 		return "bad case"
 	})
@@ -274,6 +277,49 @@ func gen(out *vc.Out, r *vc.Rand, thorough bool) {
 		emit(out, "", fmt.Sprintf("sp op z chunks 0 cut -1 n %d rep %d %s", n, 20*mul, ms()))
 	}
 	emit(out, "", fmt.Sprintf("sp op z chunks 0 cut -1 n 16 rep %d %s", 50*mul, ms()))
+
+	// cst: client mapping handler, reportStats × (tick | call | failing call | Close), TrackTraffic gated:
+	// every schedule of length ≤ 4 over two threads for every pair of kinds, then random crowds
+	cstKinds := []string{"P", "r", "rf", "c"}
+	for _, k0 := range cstKinds {
+		for _, k1 := range []string{"r", "rf", "c"} {
+			if k0 == "c" && k1 == "c" {
+				continue // a second Close waits on the dispose latch of the first, it never reports
+			}
+			L := 3
+			if thorough {
+				L = 4
+			}
+			for l := 0; l <= L; l++ {
+				for code := 0; code < 1<<l; code++ {
+					sc := make([]int, l)
+					for i := range sc {
+						sc[i] = code >> i & 1
+					}
+					if k0 == "P" && (l == 0 || sc[0] != 0) {
+						continue // the real tick is started first, while the totals are pending
+					}
+					emit(out, "", fmt.Sprintf("cst a %d %d th 2 %s %s s %d %s rep 1 %s", 1000+code, 500*(l%2), k0, k1, l, strings.TrimSpace(joinInts(sc)), ms()))
+				}
+			}
+		}
+	}
+	for i := 0; i < 20*mul; i++ {
+		n := 2 + r.Intn(3)
+		kinds := make([]string, n)
+		for j := range kinds {
+			kinds[j] = vc.Pick(r, []string{"r", "rf", "r"})
+		}
+		if r.Intn(3) > 0 {
+			kinds[r.Intn(n)] = "c" // at most one Close
+		}
+		l := r.Intn(2 * n)
+		sc := make([]int, l)
+		for j := range sc {
+			sc[j] = r.Intn(n)
+		}
+		emit(out, "", fmt.Sprintf("cst a %d %d th %d %s s %d %s rep 1 %s", r.Intn(3)*r.Intn(5000), r.Intn(2)*r.Intn(5000), n, strings.Join(kinds, " "), l, strings.TrimSpace(joinInts(sc)), ms()))
+	}
 
 	// bat: histories of Close / late attach (each side attached only while its field is empty), always
 	// ended by the last Close; every history of length ≤ 4 over {c, t, s, ct, cs, cc}, then longer random ones
